@@ -174,3 +174,188 @@ func checkRenderStateless(r *Run) {
 	r.Ob("C10-R4-renderers-found", "query/neo4j", token.NoPos, n >= 1, "%d builder types with a Render method", n)
 	r.Floor(rule, 1)
 }
+
+// checkNamespaceSeparator (R5): the grammar writes a qualified function name as ( SymbolicName '.' )* FunctionName —
+// every namespace component is followed by a dot, including the last.  An emitter that only joins the components with
+// dots and then writes the name runs the last component and the name together (apoc.coll.sum → apoc.collsum), which
+// parses back as a different function.  The FunctionInvocation case must write a "." that is not merely the
+// separator argument of strings.Join.
+func checkNamespaceSeparator(r *Run) {
+	const rule = "C10-R5-namespace-separator"
+	p := r.MustPkg("cypher/models/cypher/format")
+	info := p.TypesInfo
+	found := false
+	for _, f := range p.Syntax {
+		ast.Inspect(f, func(n ast.Node) bool {
+			cc, ok := n.(*ast.CaseClause)
+			if !ok || len(cc.List) != 1 || namedName(info.TypeOf(cc.List[0])) != "FunctionInvocation" {
+				return true
+			}
+			usesNamespace := false
+			for _, st := range cc.Body {
+				ast.Inspect(st, func(m ast.Node) bool {
+					if sel, ok := m.(*ast.SelectorExpr); ok && sel.Sel.Name == "Namespace" {
+						usesNamespace = true
+					}
+					return true
+				})
+			}
+			if !usesNamespace {
+				return true
+			}
+			found = true
+			joinArgs := map[ast.Expr]bool{}
+			dots := 0
+			for _, st := range cc.Body {
+				ast.Inspect(st, func(m ast.Node) bool {
+					if call, ok := m.(*ast.CallExpr); ok {
+						if fn := calleeOf(info, call); fn != nil && funcFullName(fn) == "strings.Join" && len(call.Args) == 2 {
+							joinArgs[call.Args[1]] = true
+						}
+					}
+					return true
+				})
+				ast.Inspect(st, func(m ast.Node) bool {
+					if e, ok := m.(ast.Expr); ok && !joinArgs[e] && constStringArg(info, e, ".") {
+						dots++
+					}
+					return true
+				})
+			}
+			if dots > 0 {
+				r.Pass(rule, "WriteExpression:FunctionInvocation", cc.Pos(), "a dot is written after the namespace components, not only between them")
+			} else {
+				r.Fail(rule, "WriteExpression:FunctionInvocation", cc.Pos(), "the namespace components are only joined with dots and the function name follows directly: a.b.c(n) is emitted as a.bc(n), which names a different function")
+			}
+			return true
+		})
+	}
+	if !found {
+		r.Undecide("C10-R5: the emitter's FunctionInvocation case was not found")
+	}
+}
+
+// checkHoistUnderConjunctionOnly (R6): the Neo4j builder moves relationship kind tests out of WHERE into the match
+// pattern.  A predicate may leave the WHERE tree only if every operator above it is a conjunction; under NOT, OR or XOR
+// it is one alternative (or the opposite) of what the query asks, and in the pattern it would constrain every row.
+// The function that performs the move must be guarded by ancestor tests that together name Negation, Disjunction and
+// ExclusiveDisjunction.
+func checkHoistUnderConjunctionOnly(r *Run) {
+	const rule = "C10-R6-hoist-under-and-only"
+	p := r.Pkg("query/neo4j")
+	if p == nil {
+		r.Undecide("C10-R6: package query/neo4j not loaded")
+		return
+	}
+	info := p.TypesInfo
+	decls := map[*types.Func]*ast.FuncDecl{}
+	for _, f := range p.Syntax {
+		for _, d := range f.Decls {
+			if fd, ok := d.(*ast.FuncDecl); ok {
+				if fn, ok := info.Defs[fd.Name].(*types.Func); ok {
+					decls[fn] = fd
+				}
+			}
+		}
+	}
+	typesNamedIn := func(fd *ast.FuncDecl) map[string]bool {
+		out := map[string]bool{}
+		ast.Inspect(fd.Body, func(n ast.Node) bool {
+			switch x := n.(type) {
+			case *ast.TypeAssertExpr:
+				if x.Type != nil {
+					out[namedName(info.TypeOf(x.Type))] = true
+				}
+			case *ast.CaseClause:
+				for _, e := range x.List {
+					if tv, ok := info.Types[e]; ok && tv.IsType() {
+						out[namedName(tv.Type)] = true
+					}
+				}
+			}
+			return true
+		})
+		return out
+	}
+	n := 0
+	for fn, fd := range decls {
+		if fd.Body == nil {
+			continue
+		}
+		// hoisting site: a case clause (or function) that appends to a pattern's Kinds and removes the node from a list
+		ast.Inspect(fd.Body, func(x ast.Node) bool {
+			cc, ok := x.(*ast.CaseClause)
+			if !ok {
+				return true
+			}
+			appendsKinds, removes := false, false
+			for _, st := range cc.Body {
+				ast.Inspect(st, func(m ast.Node) bool {
+					switch y := m.(type) {
+					case *ast.AssignStmt:
+						for _, l := range y.Lhs {
+							if sel, ok := ast.Unparen(l).(*ast.SelectorExpr); ok && sel.Sel.Name == "Kinds" {
+								appendsKinds = true
+							}
+						}
+					case *ast.CallExpr:
+						if sel, ok := y.Fun.(*ast.SelectorExpr); ok && sel.Sel.Name == "Remove" {
+							removes = true
+						}
+					}
+					return true
+				})
+			}
+			if !appendsKinds || !removes {
+				return true
+			}
+			n++
+			// guards: bool-returning methods called in conditions of `if … { return }` inside the clause
+			guarded := map[string]bool{}
+			for _, st := range cc.Body {
+				ast.Inspect(st, func(m ast.Node) bool {
+					ifs, ok := m.(*ast.IfStmt)
+					if !ok {
+						return true
+					}
+					returns := false
+					for _, b := range ifs.Body.List {
+						if _, isRet := b.(*ast.ReturnStmt); isRet {
+							returns = true
+						}
+					}
+					if !returns {
+						return true
+					}
+					ast.Inspect(ifs.Cond, func(k ast.Node) bool {
+						if call, ok := k.(*ast.CallExpr); ok {
+							if callee := calleeOf(info, call); callee != nil && decls[callee] != nil {
+								for t := range typesNamedIn(decls[callee]) {
+									guarded[t] = true
+								}
+							}
+						}
+						return true
+					})
+					return true
+				})
+			}
+			var missing []string
+			for _, t := range []string{"Negation", "Disjunction", "ExclusiveDisjunction"} {
+				if !guarded[t] {
+					missing = append(missing, t)
+				}
+			}
+			construct := shortFuncName(fn) + ":kind-matcher-hoist"
+			if len(missing) == 0 {
+				r.Pass(rule, construct, cc.Pos(), "the move is skipped under NOT, OR and XOR ancestors")
+			} else {
+				r.Fail(rule, construct, cc.Pos(), "a relationship kind test is moved from WHERE into the match pattern without checking for %v ancestors: Or(KindIn(r, A), r.x = 1) renders as `match ()-[r:A]->() where r.x = $p0`, the conjunction of the two", missing)
+			}
+			return true
+		})
+	}
+	if n == 0 {
+		r.Undecide("C10-R6: no kind-matcher hoisting site found in query/neo4j")
+	}
+}
